@@ -43,3 +43,13 @@ Definition subslice (l : list Z) (a b : Z) : outcome (list Z) :=
   then Val (firstn (Z.to_nat (b - a)) (skipn (Z.to_nat a) l)) else Panic.
 Definition splice (l : list Z) (a : Z) (w : list Z) : list Z :=
   firstn (Z.to_nat a) l ++ w ++ skipn (Z.to_nat a + length w) l.
+(* `xs.copy_within(a..b, d)`, `xs[a..].fill(v)`, `xs.get(i).copied().unwrap_or_default()` *)
+Definition copy_within (l : list Z) (a b d : Z) : outcome (list Z) :=
+  if (0 <=? a) && (a <=? b) && (b <=? lenZ l) && (0 <=? d) && (d + (b - a) <=? lenZ l)
+  then Val (firstn (Z.to_nat d) l ++ firstn (Z.to_nat (b - a)) (skipn (Z.to_nat a) l)
+            ++ skipn (Z.to_nat (d + (b - a))) l)
+  else Panic.
+Definition fill_from (l : list Z) (a v : Z) : outcome (list Z) :=
+  if (0 <=? a) && (a <=? lenZ l)
+  then Val (firstn (Z.to_nat a) l ++ repeat v (length l - Z.to_nat a)) else Panic.
+Definition get_or_default (l : list Z) (i : Z) : Z := nth (Z.to_nat i) l 0.
